@@ -385,7 +385,7 @@ func TestCheck(t *testing.T) {
 
 	nStruct := r.Pick(16, 96)    // corpus elements per target, each with all its boundary / truncation variants
 	nMutants := r.Pick(5000, 200000)
-	perBatch := r.Pick(313, 500) // 16 batches per target in the quick tier (one per shard), 400 in the thorough tier
+	perBatch := r.Pick(313, 1000) // 16 batches per target in the quick tier (one per shard), 200 in the thorough tier
 	rot := 0
 	for _, tg := range allTargets() {
 		tg := tg
@@ -427,5 +427,4 @@ func TestCheck(t *testing.T) {
 		})
 		r.Count("targets."+tg.name, 1)
 	}
-	r.Exhaustive("every recorded length/count position x 11 boundary values on every corpus message")
 }
